@@ -265,15 +265,14 @@ impl<W: tokio::io::AsyncBufRead + Unpin + tokio::io::AsyncRead> tokio::io::Async
 {
     fn poll_fill_buf(self: Pin<&mut Self>, cx: &mut Context<'_>) -> Poll<io::Result<&[u8]>> {
         let this = self.get_mut();
-        let result = Pin::new(&mut this.it).poll_fill_buf(cx);
-        if let Poll::Ready(Ok(buf)) = &result {
-            this.progress.inc(buf.len() as u64);
-        }
-        result
+        Pin::new(&mut this.it).poll_fill_buf(cx)
     }
 
     fn consume(mut self: Pin<&mut Self>, amt: usize) {
+        // Like the blocking `BufRead` impl: only what the caller consumes has been read. The same
+        // buffer may be handed out by `poll_fill_buf` any number of times.
         Pin::new(&mut self.it).consume(amt);
+        self.progress.inc(amt as u64);
     }
 }
 
